@@ -12,6 +12,35 @@ func init() {
 	register("C28", func(c *Check) { linterCheck(c, "C28") })
 }
 
+// boolDefs maps single-assignment boolean locals to the normalised condition they were defined with.
+func boolDefs(ir *FuncIR) map[string]string {
+	defs := map[string]string{}
+	count := map[string]int{}
+	walkBlock(ir.Body, nil, func(n Node, _ []Guard) {
+		a, ok := n.(*AssignN)
+		if !ok {
+			return
+		}
+		for i, l := range a.LHS {
+			if !localRx.MatchString(l) || strings.ContainsAny(l, "[]().") {
+				continue
+			}
+			count[l]++
+			if a.Tok == token.DEFINE && i < len(a.RE) {
+				if t := ir.x.typeOf(a.RE[i]); t != nil && isBool(t) {
+					defs[l] = ir.x.cond(a.RE[i]).String()
+				}
+			}
+		}
+	})
+	for l, n := range count {
+		if n != 1 {
+			delete(defs, l)
+		}
+	}
+	return defs
+}
+
 // inlineDefs maps single-assignment locals (`x := expr`, expr not a call) to their definition.
 func inlineDefs(ir *FuncIR) map[string]string {
 	defs := map[string]string{}
